@@ -150,7 +150,7 @@ func TestVerifC31(t *testing.T) {
 		c31Run(t, rec, rp.Case)
 		return
 	}
-	n := env.Pick(32, 320)
+	n := env.Pick(32, 240)
 	for i := 0; i < n; i++ {
 		if !env.Mine(i) {
 			continue
